@@ -82,9 +82,12 @@ Stack(ver, o, n, thr) == IF ver >= 6 THEN NewStacking(o, n, thr) ELSE OldStackin
 ---- \* what the callers rely on ----
 \* heights stay small: nothing is stacked more than n deep in either direction
 Bounded(h, n) == \A j \in 0..(n - 1) : h[j] <= n /\ h[j] >= -(n * n)
-\* NOT an invariant (TLC: slider 0->100 with one repeat, spinner at 0, circle at 0, all at one time): the `for j in
-\* n+1..=i` loop of the circle branch lowers every object near the slider's tail, spinners included.  The new pass never
-\* RAISES a spinner (the n-walks skip spinners).
+\* Two conjectures about spinners that TLC refuted (kept as operators, checked by nothing):
+\*  - 'spinners keep height 0': the `for j in n+1..=i` loop of the circle branch lowers every object near the slider's tail,
+\*    spinners included (slider 0->100 with one repeat, spinner at 0, circle at 0, all at one time);
+\*  - 'the new pass never raises a spinner': the offset of that loop can be negative (slider 100->0, circle at 100, spinner at 0,
+\*    circle at 0: found only with 4 objects), so the loop can also raise it.
+\* Harmless: a spinner's position is not read by any skill.
 SpinnersFlat(o, h, n) == \A j \in 0..(n - 1) : o[j].k = "p" => h[j] = 0
 SpinnersNotRaised(o, h, n) == \A j \in 0..(n - 1) : o[j].k = "p" => h[j] <= 0
 \* the heights of a prefix stacked on its own; NOT what a partial play may use when it differs from the heights inside the whole map
